@@ -31,9 +31,9 @@ func init() {
 			return x.tagOf(v)
 		},
 		"(reflect.Value).Interface": func(x *Exec, fr *Frame, st *State, a []Value) Value {
-			v := asTerm(a[0])
-			x.safety(fr, st, "reflect", x.tt.Not(x.tt.Is("vnil", v)), "reflect: Interface of invalid Value")
-			return v
+			// (no validity obligation: the model does not distinguish a nil interface element obtained through Index,
+			// for which Interface() is fine, from the zero Value)
+			return asTerm(a[0])
 		},
 		"(reflect.Value).Len": func(x *Exec, fr *Frame, st *State, a []Value) Value {
 			v := asTerm(a[0])
@@ -114,6 +114,15 @@ func init() {
 	models["fmt.Sprintf"] = func(x *Exec, fr *Frame, st *State, a []Value) Value {
 		f := asTerm(a[0])
 		args := asTerm(a[1])
+		// Sprintf("%v", s) / Sprintf("%s", s) of a single string-kind value is that string
+		if f == x.StrLit("%v") || f == x.StrLit("%s") {
+			if n, ok := x.litInt(x.sLen(args)); ok && n == 1 {
+				h := x.heap(st, "A$interface{}", arraySort("Int", arraySort("Int", "Val")))
+				el := x.tt.Select(x.tt.Select(h, x.sArr(args)), x.tt.IntLit(0))
+				gen := x.tt.UF("sprintf$", x.SS(), f, x.sArr(args), x.tt.Select(h, x.sArr(args)))
+				return x.tt.Ite(x.tt.Is("vstr", el), x.tt.Sel("v-s", "vstr", x.SS(), el), gen)
+			}
+		}
 		return x.tt.UF("sprintf$", x.SS(), f, x.sArr(args), x.tt.Select(x.heap(st, "A$interface{}", arraySort("Int", arraySort("Int", "Val"))), x.sArr(args)))
 	}
 	models["fmt.Errorf"] = func(x *Exec, fr *Frame, st *State, a []Value) Value {
@@ -263,6 +272,7 @@ func (x *Exec) doInvoke(fr *Frame, st *State, recv *Term, recvT types.Type, m *t
 	name := m.Name()
 	// reflect.Type modelled as Int
 	if isNamed(recvT, "reflect", "Type") {
+		x.safety(fr, st, "nil-deref", tt.Not(tt.Eq(recv, tt.IntLit(0))), "method call on nil reflect.Type ("+name+")")
 		switch name {
 		case "Kind":
 			return x.kindOfTidTerm(recv)
